@@ -139,6 +139,10 @@ class CallMixin:
     def field_owner(self, clsname, field):
         for n in self.class_decl_chain(clsname):
             d = dsl.REG.classes.get(n)
+            if d and field in d.views:      # interface view field realised by a concrete field of this class
+                return self.field_owner(clsname, d.views[field]) if d.views[field] != field else (n, d.fields[field])
+        for n in self.class_decl_chain(clsname):
+            d = dsl.REG.classes.get(n)
             if d and field in d.fields:
                 return n, d.fields[field]
         return None, None
@@ -153,7 +157,15 @@ class CallMixin:
                             for i, s in enumerate(fty.comps())]
         return key, st.heap[key]
 
+    def real_field(self, clsname, field):
+        for n in self.class_decl_chain(clsname):
+            d = dsl.REG.classes.get(n)
+            if d and field in d.views:
+                return d.views[field]
+        return field
+
     def heap_read(self, st, ref, field):
+        field = self.real_field(ref.ty.cls, field)
         owner, fty = self.field_owner(ref.ty.cls, field)
         key, arrs = self.heap_arrays(st, owner, field, fty)
         v = Val(fty, [z3.Select(a, ref.t) for a in arrs])
@@ -161,6 +173,7 @@ class CallMixin:
         return v
 
     def heap_write(self, st, ref, field, value, node=None):
+        field = self.real_field(ref.ty.cls, field)
         owner, fty = self.field_owner(ref.ty.cls, field)
         if owner is None:
             raise Unsupported("assignment to undeclared field %s.%s" % (ref.ty.cls, field), node)
@@ -644,7 +657,7 @@ class CallMixin:
             return
         if isinstance(ty, TSet):
             if meth == "add":
-                new = Val(ty, [z3.Store(obj.t, coerce(args[0], ty.elem).t, True)])
+                new = Val(ty, [z3.Store(obj.t, self.narrow(st, args[0], ty.elem, node, "set.add").t, True)])
                 self.write_back(lv, new, st, node)
                 yield st, NONE
             elif meth in ("remove", "discard"):
@@ -707,6 +720,13 @@ class CallMixin:
             yield from self.rec_method(obj, meth, args, kwargs, st, node, lv)
             return
         raise Unsupported("method %s on %r" % (meth, ty), node)
+
+    def narrow(self, st, v, ty, node, what="value"):
+        """Opt(T) used where a plain T is needed: obligation `not None`, then the inner value."""
+        if isinstance(v, Val) and isinstance(v.ty, TOpt) and not isinstance(ty, (TOpt, TNone)):
+            self.check(st, z3.Not(opt_isnone(v)), "safe", "not-none@%s" % what, node)
+            v = opt_inner(v)
+        return coerce(v, ty)
 
     def to_set(self, x, ty, node):
         if isinstance(x, Val) and isinstance(x.ty, TSet):
